@@ -109,3 +109,50 @@ def _nested_sampler_holder():
 
 
 UserSamplers = _nested_sampler_holder()
+
+
+def _more_user_schedulers():
+    from black_it.schedulers.round_robin import RoundRobinScheduler
+
+    class BatchIdRoundRobin(RoundRobinScheduler):
+        """Round-robin that takes its position from the batch_id the calibrator reports to update() (the documented argument)
+        instead of counting by itself."""
+
+        def __init__(self, *a, **k):
+            super().__init__(*a, **k)
+            self._next_id = 0
+
+        def get_next_sampler(self):
+            return self.samplers[self._next_id % len(self.samplers)]
+
+        def update(self, batch_id, new_params, new_losses, new_simulated_data):
+            self._next_id = int(batch_id) + 1
+
+    class GrowingRoundRobin(RoundRobinScheduler):
+        """A scheduler that manages its own line-up: samplers can be added to it while it is installed in a calibrator."""
+
+        def add_sampler(self, sampler):
+            self._samplers = tuple(self._samplers) + (sampler,)
+
+    for c in (BatchIdRoundRobin, GrowingRoundRobin):
+        c.__qualname__ = c.__name__
+        c.__module__ = __name__
+    return BatchIdRoundRobin, GrowingRoundRobin
+
+
+BatchIdRoundRobin, GrowingRoundRobin = _more_user_schedulers()
+
+
+def _fake_halton():
+    from black_it.samplers.random_uniform import RandomUniformSampler
+
+    class HaltonSampler(RandomUniformSampler):
+        """A user's own class that happens to be called HaltonSampler (it is not the library's low-discrepancy sampler)."""
+
+    HaltonSampler.__qualname__ = "UserSamplers.HaltonSampler"
+    HaltonSampler.__module__ = __name__
+    UserSamplers.HaltonSampler = HaltonSampler
+    return HaltonSampler
+
+
+_fake_halton()
